@@ -22,9 +22,20 @@ theorem binOpPg_flat (i : Nat) (t : String) (h : binOpPg i = some t) : scanC 0 t
 theorem binOpSqlite_flat (i : Nat) (t : String) (h : binOpSqlite i = some t) : scanC 0 t.toList = some 0 := by
   unfold binOpSqlite at h
   split at h <;> first | (cases h; decide) | cases h
+theorem fnMysql_flat (i : Nat) (t : String) (h : SeaQ.Gen.Spell.fnMysql i = some t) : scanC 0 t.toList = some 0 := by
+  unfold SeaQ.Gen.Spell.fnMysql at h
+  split at h <;> first | (cases h; decide) | cases h
+theorem fnPostgres_flat (i : Nat) (t : String) (h : SeaQ.Gen.Spell.fnPostgres i = some t) : scanC 0 t.toList = some 0 := by
+  unfold SeaQ.Gen.Spell.fnPostgres at h
+  split at h <;> first | (cases h; decide) | cases h
+theorem fnSqlite_flat (i : Nat) (t : String) (h : SeaQ.Gen.Spell.fnSqlite i = some t) : scanC 0 t.toList = some 0 := by
+  unfold SeaQ.Gen.Spell.fnSqlite at h
+  split at h <;> first | (cases h; decide) | cases h
 theorem fnCommon_flat (d : Backend) (i : Nat) (t : String) (h : fnCommon d i = some t) : scanC 0 t.toList = some 0 := by
-  unfold fnCommon at h
-  split at h <;> first | (cases h; decide) | (cases d <;> cases h <;> decide) | cases h
+  cases d
+  · exact fnMysql_flat i t h
+  · exact fnPostgres_flat i t h
+  · exact fnSqlite_flat i t h
 theorem fnPg_flat (i : Nat) (t : String) (h : fnPg i = some t) : scanC 0 t.toList = some 0 := by
   unfold fnPg at h
   split at h <;> first | (cases h; decide) | cases h
